@@ -8,7 +8,7 @@
    (auth, iq, P2) | interface | P3 - P2 and P3 are above the control layer.  The alphabet includes the
    answers to the control layer's set-keys upload (EKeysResult, EKeysError), so every theorem below is
    about histories through the passive login and the reboot of the connection as well.                *)
-From YV Require Import Common.Tac C16.C16Model C16.C16Proofs C16.C16Thms C16.C16Keep C16.C16Reconnect C16.C16Passive.
+From YV Require Import Common.Tac C16.C16Model C16.C16Proofs C16.C16Thms C16.C16Keep C16.C16Reconnect C16.C16Passive C16.C16Writes.
 
 (* one CONNECTED at every position, one auth event and one handshake per dispatcher-connected;
    no dispatcher is ever replaced while live *)
@@ -276,3 +276,31 @@ Theorem C16_reboot_consumed_refuted :
    In (OWrite (WPing 1) true) tr').
 Proof. exact reboot_consumed_refuted. Qed.
 Print Assumptions C16_reboot_consumed_refuted.
+
+(* No write unless the connection is up.  OWrite w up: `up` says that the dispatcher written to is connected
+   (dp = DpUp) - a dispatcher that was only requested or is CONNECTING counts as NOT up, exactly like a closed one.
+   For every in-domain history no write goes to a dispatcher that is not up, and while the network layer is
+   CONNECTING `connected` is false, so data reaching YowNetworkLayer.send in that phase (keep-alive ping,
+   application data) is dropped.  _partial: the statement for ALL histories without the domain restriction
+   (exec_any; it would cover ticks / sends in the window of the open finding, after a close and a connect request
+   before the loop ran) is kept in C16/C16Writes.v as a comment and is not proved; that window is checked on the
+   implementation by the harness's window family and per-dispatcher write rule. *)
+Theorem C16_no_write_unless_up_partial : forall c h s tr, exec c (init c) h = Some (s, tr) ->
+  countb is_down_write tr = 0%nat /\
+  (ns s = NsConnecting -> conn s = false /\ dp s = DpConnecting /\ forall w, snd (net_send w s) = []) /\
+  (conn s = true -> dp s = DpUp).
+Proof. exact no_write_unless_up_partial_thm. Qed.
+Print Assumptions C16_no_write_unless_up_partial.
+
+(* witness for the variant in which send is keyed on the state field (state != DISCONNECTED; not today's code):
+   connection up and logged in, peer close, connect request before the loop ran - CONNECTING, fresh dispatcher,
+   keep-alive thread still alive, outside the domain (open finding) - and the next ping tick writes its ping to
+   the dispatcher that is not connected; today's code drops it *)
+Theorem C16_write_while_connecting_refuted :
+  let s := fst (exec_any cfg_w (init cfg_w) window_history) in
+  ns s = NsConnecting /\ conn s = false /\ dp s = DpConnecting /\ pth s = true /\ dq s <> [] /\
+  exec cfg_w (init cfg_w) window_history = None /\
+  snd (on_tick_v cfg_w s) = [OWrite (WPing 0) false] /\
+  snd (step cfg_w s ETick) = [].
+Proof. exact write_while_connecting_refuted. Qed.
+Print Assumptions C16_write_while_connecting_refuted.
